@@ -13,7 +13,12 @@ SPEC = {
                   "packet is appended at the end or, when the queue is full, dropped (C32_queue_bound, C32_cache). Release: on completion "
                   "the packets sent are exactly the queued packets the outbound firewall oracle allows, each once, in order, and the "
                   "pending entry and its index are removed (C32_release); on a wrong-responder restart the queue moves intact to the new "
-                  "attempt (C32_restart_keeps_queue). Attempts: each handleOutbound call raises the counter by exactly one; a "
+                  "attempt (C32_restart_keeps_queue); the same with the tun reader interleaved - a packet that goes through GetOrHandshake + "
+                  "cachePacket while continueHandshake is between the receipt of the stage 2 and Complete / the restart is part of the "
+                  "queue that is replayed / moved (C32_release_interleaved, C32_restart_interleaved; the harness produces this "
+                  "interleaving deterministically from inside the node's log handler at the 'Handshake message received' and "
+                  "'Incorrect host responded' log lines of continueHandshake and at the 'Handshake message received' line of "
+                  "beginHandshake, case kinds interleave-at-*). Attempts: each handleOutbound call raises the counter by exactly one; a "
                   "timer-driven call sends stage 0 to every remote and re-arms the timer with tryInterval * counter; a lighthouse-"
                   "triggered call never touches the timer wheel and sends only when the remote list changed (C32_attempt); a pending "
                   "handshake survives exactly `retries` calls and the next one removes the entry and its index without sending or "
